@@ -113,6 +113,16 @@ func init() {
 	ops["metrics.os2enc"] = func(f Fields) string {
 		return canonPanic(guard(func() string { return "ok:" + hx(mOs2(f).Encode()) }))
 	}
+	// D: Read(Encode(info)) on the real os2 package; the driver answers with info itself
+	ops["metrics.os2rt"] = func(f Fields) string {
+		return canonPanic(guard(func() string {
+			o, err := os2.Read(bytes.NewReader(mOs2(f).Encode()))
+			if err != nil {
+				return mErrClass(err)
+			}
+			return "ok:" + mShowOs2(o)
+		}))
+	}
 	ops["metrics.os2dec"] = func(f Fields) string {
 		return canonPanic(guard(func() string {
 			o, err := os2.Read(bytes.NewReader(f.Hex("b")))
@@ -183,6 +193,36 @@ func mParseInts32(s string) []int {
 func areaMetricsOs2(c *Ctx) {
 	r := c.Rng
 	n := c.N
+	// the whole fsType / fsSelection flag space, exhaustively: PermUse x PermNoSubsetting x
+	// PermOnlyBitmap x (regular | bold/italic combinations) x oblique, other fields varied at random
+	styles := [][3]int{{1, 0, 0}, {0, 0, 0}, {0, 1, 0}, {0, 0, 1}, {0, 1, 1}} // regular, bold, italic
+	for perm := 0; perm < 4; perm++ {
+		for nosub := 0; nosub < 2; nosub++ {
+			for bitmap := 0; bitmap < 2; bitmap++ {
+				for _, st := range styles {
+					for obl := 0; obl < 2; obl++ {
+						last := Pick(r, []int{0xFFFF, 0x7E, r.Range(0, 0xFFFE)})
+						ur1 := uint32(r.U64()) &^ (1 << 25)
+						if last == 0xFFFF {
+							ur1 |= 1 << 25
+						}
+						sub := make([]int, 10)
+						for j := range sub {
+							sub[j] = mI16(r)
+						}
+						args := fmt.Sprintf("wc=%d wd=%d bold=%d italic=%d regular=%d oblique=%d first=%d last=%d asc=%d desc=%d wasc=%d wdesc=%d "+
+							"gap=%d cap=%d xh=%d avg=%d sub=%s fam=%d panose=%s vendor=%s ur=%d,%d,%d,%d cpr=%d perm=%d nosub=%d bitmap=%d",
+							r.Range(1, 1000), r.Range(1, 9), st[1], st[2], st[0], obl, r.Range(0, last), last, mI16(r), mI16(r), mI16(r), mI16(r),
+							mI16(r), r.Range(0, 1500), r.Range(0, 1200), mI16(r), ints(sub), mI16(r), hx(r.Bytes(10)), hx([]byte("VRFY")),
+							uint32(r.U64()), ur1, uint32(r.U64()), uint32(r.U64()), r.U64(), perm, nosub, bitmap)
+						c.Case(Verdict, "metrics.os2enc", args, true)
+						c.Case(Direct, "metrics.os2rt", args, true)
+						c.Stat("os2_flagspace", fmt.Sprintf("perm=%d nosub=%d bitmap=%d", perm, nosub, bitmap))
+					}
+				}
+			}
+		}
+	}
 	for i := 0; i < n/5+10; i++ {
 		inDom := i%5 != 4
 		last := Pick(r, []int{0xFFFF, 0xFFFE, 0x7E, r.Range(0, 0xFFFF)})
@@ -253,6 +293,7 @@ func areaMetricsOs2(c *Ctx) {
 		}
 		res := c.Case(Verdict, "metrics.os2dec", "b="+out[3:], true)
 		if inDom {
+			c.Case(Direct, "metrics.os2rt", args, true)
 			// the real decoder gives back the info the case line describes
 			if strings.TrimPrefix(res, "ok:") == args {
 				c.Stat("os2_roundtrip", "identity")
